@@ -30,7 +30,7 @@ META = {
 
 
 META['explanation'] += ' Rounds 4-5: ' + 'R12 get_filename/get_abbr read every key field; the scan condition evaluated over maps.xml finds every entry by its own key. R13 loader suffix code interpreted over every map. R14 (= C17.R1/R5) every node path parses under the path grammar.'
-META['technique'] += '; conditional constant propagation over the CFG on finite, complete input domains (DESIGN.md 10.4.1)'
+META['technique'] = META.get('technique', 'static analysis: AST/CFG rules over /repo source + shipped XML data') + '; conditional constant propagation over the CFG on finite, complete input domains (DESIGN.md 10.4.1)'
 
 
 def r1_index(ctx):
